@@ -274,6 +274,21 @@ class AxisEval:
                 if name != "permute":
                     rest = self._expand_shape_args(rest)
                 return self._shape_op(name, f.value, rest, c)
+            if name == "movedim" and len(c.args) == 2 and const_number(c.args[0]) is not None and const_number(c.args[1]) is not None:
+                lay = list(self.ev(f.value))
+                i, j = int(const_number(c.args[0])), int(const_number(c.args[1]))
+                i = i if i >= 0 else len(lay) + i
+                j = j if j >= 0 else len(lay) + j
+                g = lay.pop(i)
+                lay.insert(j, g)
+                return tuple(lay)
+            if name == "unflatten" and len(c.args) == 2 and const_number(c.args[0]) is not None and isinstance(c.args[1], (ast.Tuple, ast.List)):
+                lay = self.ev(f.value)
+                d = int(const_number(c.args[0]))
+                d = d if d >= 0 else len(lay) + d
+                shape = [ast.Subscript(value=ast.Attribute(value=f.value, attr="shape", ctx=ast.Load()), slice=ast.Constant(value=k), ctx=ast.Load()) for k in range(len(lay))]
+                rest = shape[:d] + list(c.args[1].elts) + shape[d + 1 :]
+                return self._shape_op("reshape", f.value, self._expand_shape_args(rest), c)
             if name == "t" and not c.args:
                 lay = list(self.ev(f.value))
                 if len(lay) != 2:
@@ -367,7 +382,7 @@ def image_env():
     return {"inputs": ((B,), (C,), (H,), (W,)), "transform_params": ((B,), (P,), (H,), (W,))}
 
 
-LAYOUT_ONLY = {"reshape", "view", "permute", "contiguous", "clone", "transpose", "flatten", "unsqueeze", "squeeze"}
+LAYOUT_ONLY = {"reshape", "view", "permute", "contiguous", "clone", "transpose", "flatten", "unsqueeze", "squeeze", "movedim", "moveaxis", "unflatten", "t", "view_as", "reshape_as"}
 
 
 def strip_layout_ops(e):
